@@ -149,8 +149,11 @@ def c06_1(ctx: Ctx) -> RuleResult:
             res.add(f, c, "function requests carry no perturbation label", pert is None, "" if pert is None else "unexpected perturbation labels", construct=f"{f.name}: no perturbation labels")
             # split: vsplit(objectives, N)
             n_term = rl[0][3]
-            splits = [s for s in nodes_in(f, ast.Call) if X.at(f, s.func) in (G("numpy.vsplit"), G("numpy.split"), G("numpy.array_split"))]
-            ok = bool(splits) and all(_same_dim(X.at(f, s.args[1]), n_term) for s in splits if len(s.args) > 1)
+            # in the builder itself or in the private helpers it is cut into (the count as the builder passes it)
+            from ..util import contextual
+
+            splits = [(g_, s) for g_ in region(ctx, f) for s in nodes_in(g_, ast.Call) if X.at(g_, s.func) in (G("numpy.vsplit"), G("numpy.split"), G("numpy.array_split"))]
+            ok = bool(splits) and all(_same_dim(X.at(g_, s.args[1]) if g_ is f else contextual(ctx, g_, X.at(g_, s.args[1]), stop=f)[0], n_term) for g_, s in splits if len(s.args) > 1)
             res.add(f, c, "returned arrays are split into one block of R rows per vector, in request order", ok,
                     "" if ok else "the split of the returned arrays does not follow the request layout", construct=f"{f.name}: split of results")
         elif kinds == ["grid"]:
